@@ -48,6 +48,8 @@ SERVER_INFO = {
     "refused-opens": (1, 1, None, 3),
     # local INITIAL_WINDOW_SIZE lowered to 10 and acknowledged; request 1 announces content-length 5 and is open
     "small-window-cl": (1, None, None, 3),
+    # our MAX_FRAME_SIZE raised to 32768 (acknowledged), then lowered to 16384 (the acknowledgement is still to come)
+    "mfs-lowering-pending": (1, 1, None, 3),
 }
 CLIENT_INFO = {
     "fresh": (0, None, None, None), "handshaken": (0, None, None, None),
@@ -62,6 +64,8 @@ CLIENT_INFO = {
     # request 1, a stream promised on it (2) has delivered its whole response, the client has opened request 3 since:
     # stream 2 - the highest id the server has used - ended normally and is no longer in the stream table
     "pushed-ended-forgotten": (2, None, 2, None),
+    # request 1 was reset BY THE SERVER, the client has opened request 3 since (stream 1 is gone from the table)
+    "reset-by-peer-forgotten": (0, None, None, None),
 }
 
 
@@ -80,6 +84,21 @@ def _build_extra(client, name, cfg):
             assert o.kind == "ok", o.brief()
         h.cleanup()
         assert 2 not in h.conn.streams
+        h.conn.data_to_send()
+        return h.conn
+    if name == "reset-by-peer-forgotten":
+        h = H.Solo(True, **dict(cfg))
+        for o in (h.api("send_headers", 1, H.ni(H.REQ)), h.rx([wire.rst_stream(1, 8)]), h.api("send_headers", 3, H.ni(H.REQ))):
+            assert o.kind == "ok", o.brief()
+        h.cleanup()
+        h.conn.data_to_send()
+        return h.conn
+    if name == "mfs-lowering-pending":
+        h = H.Solo(False, **dict(cfg))
+        for o in (h.rx([wire.settings([], ack=True)]), h.api("update_settings", {wire.S_MAX_FRAME_SIZE: 32768}),
+                  h.rx([wire.settings([], ack=True)]), h.rx([wire.headers(1, sb(H.REQ_POST))]),
+                  h.api("update_settings", {wire.S_MAX_FRAME_SIZE: 16384})):
+            assert o.kind == "ok", o.brief()
         h.conn.data_to_send()
         return h.conn
     if name == "small-window-cl":
@@ -144,6 +163,15 @@ def templates(client, state):
         add("too-many-continuations", [PE, EYC], *[wire.continuation(1, b"", eh=False) for _ in range(65)])
         return T
     anysid = data_sid or (1 if hi or client else None)
+    if state == "mfs-lowering-pending":
+        # the lowered limit binds from its acknowledgement on, also for a frame that follows the ACK in the same chunk
+        add("oversize-data-right-after-lowering-ack", [FSE], wire.settings([], ack=True), wire.raw(wire.DATA, 0, 1, b"\0" * 20000))
+    if state == "reserved-local":
+        # a window violation through SETTINGS on a stream that is only reserved: its window was raised to 2^31-1, then the
+        # peer raises INITIAL_WINDOW_SIZE
+        add("iws-overflows-reserved-stream", [FCE], wire.window_update(2, 2 ** 31 - 1 - 65535), wire.settings([(4, 65536)]))
+    if state == "reset-by-peer-forgotten":
+        add("push-promise-on-stream-the-peer-reset", [PE], wire.push_promise(1, 2, sb(H.REQ)))
     if state == "small-window-cl":
         # A window violation is a window violation whatever else is wrong with the frame: "FLOW_CONTROL_ERROR for window
         # violations ... PROTOCOL_ERROR otherwise".  These DATA frames overrun the 10-byte stream window AND contradict
@@ -273,6 +301,10 @@ def deliver(blob, client, state, items, mode):
     return o
 
 
+MUST_BE_CONNECTION_ERROR = {"oversize-data-right-after-lowering-ack", "iws-overflows-reserved-stream",
+                            "push-promise-on-stream-the-peer-reset"}
+
+
 def judge(o, client, state, name, codes, hi, opening_sids, viols, outcomes, family, case):
     def bad(kind, msg, **sig):
         s = {"kind": kind, "template": name if family == "catalogue" else "struct"}
@@ -284,6 +316,14 @@ def judge(o, client, state, name, codes, hi, opening_sids, viols, outcomes, fami
 
     if o.kind != "raise":
         outcomes[family + ":not-raised"] = outcomes.get(family + ":not-raised", 0) + 1
+        # (in "mfs-lowering-pending" the generic oversize templates - 16385 bytes - are still within the limit in force)
+        if family == "catalogue" and codes is not None and (
+                (codes == {FSE} and state != "mfs-lowering-pending") or name in MUST_BE_CONNECTION_ERROR):
+            # categories for which the RFC knows no stream-error alternative: no GOAWAY at all is the wrong code too
+            bad("connection-error-not-raised", "RFC mandates a %s connection error, the input was accepted: %s" % (
+                "/".join(wire.err_name(c) for c in sorted(codes)), o.brief()),
+                expected="/".join(wire.err_name(c) for c in sorted(codes)))
+            return True
         return False
     if not o.is_proto:
         outcomes[family + ":non-protocol"] = outcomes.get(family + ":non-protocol", 0) + 1
